@@ -259,6 +259,8 @@ class Interp:
             return op == '!='            # a pointer into a vector is not null
         elif isinstance(a, Ptr) and isinstance(b, Ptr) and op in ('==', '!='):
             return (a.rec is b.rec) == (op == '==')
+        elif isinstance(a, Ptr) and isinstance(b, Ptr) and a.rec is b.rec:
+            return op in ('<=', '>=')            # the same pointer (two null ends of an empty vector in an assert): ordered as equal
         elif isinstance(a, Ptr) and isinstance(b, int) and b == 0 and op in ('==', '!='):
             return (a.rec is None) == (op == '==')
         elif isinstance(b, Ptr) and isinstance(a, int) and a == 0 and op in ('==', '!='):
